@@ -11,7 +11,7 @@
 (* at <<i>>, and so on.  The THEN / ELSE lists run to the end of the line,  *)
 (* so leaving any list leads to the next line.                              *)
 (***************************************************************************)
-EXTENDS BasicExpr
+EXTENDS BasicShow
 
 PastEnd == -2
 Direct  == -1
